@@ -20,19 +20,20 @@ import (
 // C12: compression codecs are exact inverses for every input and level. Runs in child processes.
 
 type c12Result struct {
-	Encoded     map[string]int64 `json:"encoder_round_trips_by_format_level"`
-	Decoded     map[string]int64 `json:"reference_streams_decoded_by_format"`
-	Independent int64            `json:"streams_checked_with_independent_tools"`
-	MaxRatio    map[string]int   `json:"max_ratio_decoded_by_format"`
-	Variants    map[string]int64 `json:"stream_variants"`
-	Malformed   map[string]int64 `json:"malformed_by_format"`
-	MalRejected int64            `json:"malformed_rejected"`
-	MalAccepted int64            `json:"malformed_accepted_with_output"`
-	GoroutinesB int              `json:"goroutines_before"`
-	GoroutinesA int              `json:"goroutines_after"`
-	Distinct    []string         `json:"distinct"`
-	Samples     []interface{}    `json:"samples"`
-	Viol        []c09Viol        `json:"violations"`
+	Encoded             map[string]int64 `json:"encoder_round_trips_by_format_level"`
+	Decoded             map[string]int64 `json:"reference_streams_decoded_by_format"`
+	Independent         int64            `json:"streams_checked_with_independent_tools"`
+	MaxRatio            map[string]int   `json:"max_ratio_decoded_by_format"`
+	Variants            map[string]int64 `json:"stream_variants"`
+	ValidAfterMalformed int64            `json:"valid_streams_decoded_right_after_malformed_ones"`
+	Malformed           map[string]int64 `json:"malformed_by_format"`
+	MalRejected         int64            `json:"malformed_rejected"`
+	MalAccepted         int64            `json:"malformed_accepted_with_output"`
+	GoroutinesB         int              `json:"goroutines_before"`
+	GoroutinesA         int              `json:"goroutines_after"`
+	Distinct            []string         `json:"distinct"`
+	Samples             []interface{}    `json:"samples"`
+	Viol                []c09Viol        `json:"violations"`
 }
 
 func (res *c12Result) add(v c09Viol) {
@@ -256,6 +257,14 @@ func c12Child(args []string) {
 			}
 		}
 	}
+	// one known-good stream per format, decoded again after malformed ones
+	refValid := map[string][2][]byte{}
+	for _, f := range formats {
+		x := hx.PRNGBytes(rnd.Int63(), 6600, "text")
+		if enc, err := hx.Encode(f, x, 5); err == nil {
+			refValid[f] = [2][]byte{x, enc}
+		}
+	}
 	nMal := 6000 * scale
 	for i := 0; i < nMal; i++ {
 		p := pool[rnd.Intn(len(pool))]
@@ -304,6 +313,16 @@ func c12Child(args []string) {
 			res.MalAccepted++
 			_ = dec
 		}
+		if f != "zst" && i%2 == 0 {
+			// a decoder that has just seen a malformed stream still restores the next valid one
+			ref := refValid[f]
+			var back []byte
+			var berr error
+			if p2, hung2 := withWatchdog(30*time.Second, func() { back, berr = srv.Decompress(f, ref[1]) }); p2 != nil || hung2 || berr != nil || !bytes.Equal(back, ref[0]) {
+				res.add(c09Viol{Kind: "valid_stream_not_restored", Params: map[string]string{"format": f, "after": "malformed_stream"}, Text: fmt.Sprintf("valid %s stream not restored right after the decoder was given a %s-mutated stream: err=%v panic=%v hung=%v got %d bytes want %d", f, kind, berr, p2, hung2, len(back), len(ref[0])), Input: hexHead(v)})
+			}
+			res.ValidAfterMalformed++
+		}
 		if i%53 == 0 {
 			res.Distinct = append(res.Distinct, fmt.Sprintf("mal|%s|%s|%d", f, kind, len(v)))
 		}
@@ -333,7 +352,7 @@ func c12Child(args []string) {
 }
 
 func c12(r *hx.Run) {
-	r.Rule = "child process per batch. (1) pike's Gzip/Brotli at levels -1..12, 99 and -7 on lengths {0..64, 2^7..2^20 +-1, random} x {random, text, runs, zeros}: decoded by pike's own and by the standard decoders (plus gzip -dc and python zlib on a sample); (2) valid streams of gzip (incl. multi-member), br, lz4 block, zst (incl. zstd CLI output), snz from self-checked reference encoders, one in four gzip/br/zst streams in a container written with other encoder settings (gzip FNAME/FCOMMENT/FEXTRA/MTIME, brotli windows 2^10..2^24 with flushes, zstd streaming encoder with declared windows 2^10..2^25 and chunked writes) at random levels, up to 1 MiB and ratios > 200: pike's decoder must restore them exactly; (3) malformed streams (truncation incl. every offset of small streams, bit flips, header edits, random bytes, doubled streams) per decoder under a per-case watchdog: no panic, no hang. Non-trivial/distinct = (level,length,kind) / (format,kind,ratio class) / mutation class."
+	r.Rule = "child process per batch. (1) pike's Gzip/Brotli at levels -1..12, 99 and -7 on lengths {0..64, 2^7..2^20 +-1, random} x {random, text, runs, zeros}: decoded by pike's own and by the standard decoders (plus gzip -dc and python zlib on a sample); (2) valid streams of gzip (incl. multi-member), br, lz4 block, zst (incl. zstd CLI output), snz from self-checked reference encoders, one in four gzip/br/zst streams in a container written with other encoder settings (gzip FNAME/FCOMMENT/FEXTRA/MTIME, brotli windows 2^10..2^24 with flushes, zstd streaming encoder with declared windows 2^10..2^25 and chunked writes) at random levels, up to 1 MiB and ratios > 200: pike's decoder must restore them exactly; (3) malformed streams (truncation incl. every offset of small streams, bit flips, header edits, random bytes, doubled streams) per decoder under a per-case watchdog: no panic, no hang, and a known-good stream of the format is restored right after every second malformed one. Non-trivial/distinct = (level,length,kind) / (format,kind,ratio class) / mutation class."
 	r.Assume = []string{"a malformed stream that decodes to some bytes without error is accepted (the formats carry no mandatory checksum)", "br/lz4/zst/snz reference encoders are the libraries pike links; gzip and zstd additionally use independent tools", "zst cases are capped per child because every ZSTDDecode leaves 16 goroutines behind (information, outside the given properties)"}
 	exe, _ := os.Executable()
 	batches := r.Pick(1, 12)
@@ -382,6 +401,7 @@ func c12(r *hx.Run) {
 		for k, v := range res.Variants {
 			tot.Variants[k] += v
 		}
+		tot.ValidAfterMalformed += res.ValidAfterMalformed
 		for k, v := range res.MaxRatio {
 			if v > tot.MaxRatio[k] {
 				tot.MaxRatio[k] = v
@@ -416,6 +436,7 @@ func c12(r *hx.Run) {
 	r.Set("reference_streams_decoded_by_format", tot.Decoded)
 	r.Set("max_ratio_decoded_by_format", tot.MaxRatio)
 	r.Set("valid_stream_container_variants_decoded", tot.Variants)
+	r.Add("valid_streams_decoded_right_after_malformed_ones", tot.ValidAfterMalformed)
 	r.Set("malformed_by_format", tot.Malformed)
 	r.Add("malformed_rejected", tot.MalRejected)
 	r.Add("malformed_accepted_with_output", tot.MalAccepted)
